@@ -74,6 +74,9 @@ void FilteringAlgorithm::reboot()
 {
     std::lock_guard<std::mutex> lk(mtx_run_);
     reset_ = true;
+#ifdef BFL_VERIF
+    verif_schedule_point(6);
+#endif
     run_   = false;
     cv_run_.notify_one();
 }
